@@ -92,16 +92,22 @@ Fixpoint pmul (a b : list Qc) : list Qc :=
   end.
 
 (* a chosen root: (x, 0) is the real pole z = x; (x, y) with y <> 0 stands for
-   the conjugate pair z = x +- i y.  Its factor as a polynomial in z^-1: *)
-Definition factor (xy : Qc * Qc) : list Qc :=
+   the conjugate pair z = x +- i y.  Its factor as a polynomial in z, lowest
+   power first: z - x, or z^2 - 2 x z + (x^2 + y^2) *)
+Definition zfactor (xy : Qc * Qc) : list Qc :=
   let (x, y) := xy in
-  if Qc_eqb y 0 then [1; - x] else [1; - (x + x); x * x + y * y].
+  if Qc_eqb y 0 then [- x; 1] else [x * x + y * y; - (x + x); 1].
 
-Fixpoint from_roots (g : Qc) (roots : list (Qc * Qc)) : list Qc :=
+(* g * prod (z - root) as a polynomial in z, lowest power first *)
+Fixpoint zpoly (g : Qc) (roots : list (Qc * Qc)) : list Qc :=
   match roots with
   | [] => [g]
-  | xy :: t => pmul (factor xy) (from_roots g t)
+  | xy :: t => pmul (zfactor xy) (zpoly g t)
   end.
+
+(* the denominator (powers of z^-1, index = power) whose pole polynomial
+   den[0] z^n + ... + den[n] is g * prod (z - root) *)
+Definition from_roots (g : Qc) (roots : list (Qc * Qc)) : list Qc := rev (zpoly g roots).
 
 (* |z| < 1 *)
 Definition inside (xy : Qc * Qc) : bool := Qc_ltb (fst xy * fst xy + snd xy * snd xy) 1.
